@@ -416,7 +416,7 @@ fn driver(p: &'static dyn Prop, tier: Tier) -> i32 {
                         let repeated = died_at.contains(&(case, choices.clone()));
                         died_at.insert((case, choices.clone()));
                         if repeated {
-                            abandoned.insert(case);
+                            abandoned.insert(case + nshards); // (result records are keyed by the shard's next case)
                         }
                         let case = if repeated { case + 1 } else { case };
                         if w.restarts > 2000 {
@@ -549,7 +549,14 @@ fn driver(p: &'static dyn Prop, tier: Tier) -> i32 {
                         let text = String::from_utf8_lossy(&o.stdout).to_string();
                         let line = text.lines().find_map(|l| l.strip_prefix("GDVERIF-JSON:")).unwrap_or("[]");
                         let vs: Vec<Violation> = serde_json::from_str(line).unwrap_or_default();
-                        let mut obs: Vec<(String, String)> = vs.into_iter().map(|v| (v.class, v.observed)).collect();
+                        // (responses hold hash sets and maps, e.g. Unreal 2 mutators, whose iteration order differs from
+                        // process to process: what is compared is the multiset of tokens of the observation, not their order)
+                        let tokens = |s: &str| -> String {
+                            let mut t: Vec<&str> = s.split(|c: char| !c.is_alphanumeric() && c != '_' && c != '-' && c != '.').filter(|x| !x.is_empty()).collect();
+                            t.sort_unstable();
+                            t.join(" ")
+                        };
+                        let mut obs: Vec<(String, String)> = vs.into_iter().map(|v| (v.class, tokens(&v.observed))).collect();
                         obs.sort();
                         outs.push((o.status.code(), format!("{obs:?}")))
                     }
